@@ -10,6 +10,7 @@ import (
 	"fmt"
 	"strings"
 	"testing"
+	"testing/synctest"
 )
 
 func vSweepRun(f func(), vals map[string]any) (outcome []string) {
@@ -46,7 +47,11 @@ func vSweepEntry(t *testing.T, name string, f func(), symbolic []string) {
 				vals[s] = json.Number(fmt.Sprint(v))
 			}
 			vSweep.pos, vSweep.ns = 0, vSweep.ns[:0]
-			for _, o := range vSweepRun(f, vals) {
+			// in a bubble, as the replay of a counterexample runs (verifSettle = synctest.Wait)
+			var outcome []string
+			verifWaitHook = synctest.Wait
+			synctest.Test(t, func(*testing.T) { outcome = vSweepRun(f, vals) })
+			for _, o := range outcome {
 				if strings.HasPrefix(o, "violated") || strings.HasPrefix(o, "panic") || strings.HasPrefix(o, "finding") {
 					t.Errorf("%s: %s with choices %v values %v", name, o, vSweep.trail[:vSweep.pos], vals)
 				}
@@ -67,5 +72,6 @@ func TestVerifSweep(t *testing.T) {
 	vSweepEntry(t, "VerifC12Checker", VerifC12Checker, nil)
 	vSweepEntry(t, "VerifC12Consumers", VerifC12Consumers, nil)
 	vSweepEntry(t, "VerifC12Reap", VerifC12Reap, nil)
+	vSweepEntry(t, "VerifC12Start", VerifC12Start, nil)
 	vSweepEntry(t, "VerifC12Header", VerifC12Header, []string{"recorded0", "recorded1", "recorded2"})
 }
